@@ -166,6 +166,27 @@ Theorem c07_incr_stores : forall parse nounset max_depth f o x depth en v en',
 Proof. exact incr_stores. Qed.
 Print Assumptions c07_incr_stores.
 
+(** evaluation terminates: with fuel above (max_depth+1)*(H+1) + weight e it never runs out, where H
+    bounds the weight of what variables can hold (their initial contents, and the decimal
+    renderings stored by assignments); the recursion through variable contents is cut by the
+    1024-level depth counter *)
+Theorem c07_deref_depth_bound : forall parse nounset max_depth, 0 <= max_depth -> forall H,
+  val_ok parse H [] -> (forall z, val_ok parse H (show_Z z)) ->
+  forall fuel e en, env_ok parse H en ->
+  ((Z.to_nat max_depth) * S H + weight e < fuel)%nat ->
+  eval parse nounset max_depth fuel e 0 en <> RFuel.
+Proof. exact deref_depth_bound. Qed.
+Print Assumptions c07_deref_depth_bound.
+
+Theorem c07_fuel_hyps_nonvacuous :
+  let parse := fun s : str => match s with [] => Some (ELit 0) | _ => Some (ERef [120%N] None) end in
+  val_ok parse 1 [] /\ (forall z, val_ok parse 1 (show_Z z)) /\
+  env_ok parse 1 [([120%N], [120%N])] /\
+  eval parse false 1024 (1024 * 2 + 1 + 1) (ERef [120%N] None) 0 [([120%N], [120%N])]
+    = RErr ERecLimit [([120%N], [120%N])].
+Proof. exact fuel_hyps_nonvacuous. Qed.
+Print Assumptions c07_fuel_hyps_nonvacuous.
+
 (** *** parser and evaluator together: whatever brush's parser accepts evaluates to an i64 *)
 Theorem c07_parse_lits_in_range : forall s e, arith_parse s = Some e -> lits_inr e.
 Proof. exact parse_lits_in_range. Qed.
